@@ -428,6 +428,8 @@ func genC18(tier string, rng *RNG, w *CaseWriter) {
 		{Kind: "points", Points: []dpointA{{Kind: "malformed"}}},
 		{Kind: "points", Points: []dpointA{{Kind: "full", Names: uris(d1)}, {Kind: "malformed"}}},
 		{Kind: "points", Points: []dpointA{{Kind: "reasons-only"}}},
+		{Kind: "points", Points: []dpointA{{Kind: "full", Names: []gnameA{{URI: ""}}}, {Kind: "full", Names: uris(d1)}}},            // a point with a non-URI name only, then a point with a URI
+		{Kind: "points", Points: []dpointA{{Kind: "full", Names: []gnameA{{URI: d3}, {URI: ""}}}, {Kind: "full", Names: uris(d2)}}}, // a URI and a non-URI name, then another point
 		{Kind: "points", Points: []dpointA{{Kind: "malformed-not-a-sequence"}}},
 		{Kind: "points", Points: []dpointA{{Kind: "full", Names: uris(d1)}, {Kind: "malformed-name-truncated"}}},
 		{Kind: "points", Points: []dpointA{{Kind: "malformed-uri-truncated"}, {Kind: "full", Names: uris(d1)}}},
